@@ -14,6 +14,7 @@ func init() { Registry["C10"] = c10 }
 
 func c10(r *Report) {
 	defer c10Seed5(r)
+	defer c10Seed6(r)
 	p := r.P
 	defer c10Audit4(r)
 	const ds = "vdr/didnuts/didstore"
@@ -482,10 +483,11 @@ func c10TieBreak(r *Report, before *ssa.Function) {
 	r.OK(key, rule, r.P.Pos(before.Pos()), "tie-break on Ref present", true)
 }
 
-func c10Sticky(r *Report) {
+func c10Sticky(r *Report) { c10StickyAs(r, "C10.sticky-deactivation") }
+
+func c10StickyAs(r *Report, key string) {
 	p := r.P
 	rule := "ARG: applyDocument sets Deactivated to (new.Deactivated || current.Deactivated)"
-	key := "C10.sticky-deactivation"
 	fn := p.Func("vdr/didnuts/didstore", "", "applyDocument")
 	if fn == nil {
 		r.Lost(key, rule, "applyDocument not found")
